@@ -41,6 +41,10 @@ import (
 	"go.opentelemetry.io/collector/pdata/pcommon"
 	"go.opentelemetry.io/collector/pdata/plog"
 	"go.opentelemetry.io/collector/pdata/pmetric"
+	"go.opentelemetry.io/collector/pdata/pprofile"
+	"go.opentelemetry.io/collector/consumer/xconsumer"
+	"go.opentelemetry.io/collector/exporter/xexporter"
+	"go.opentelemetry.io/collector/receiver/xreceiver"
 	"go.opentelemetry.io/collector/pdata/ptrace"
 	"go.opentelemetry.io/collector/receiver/otlpreceiver"
 	"go.opentelemetry.io/collector/receiver/receivertest"
@@ -217,6 +221,15 @@ func c15StartReceiver(auth string) (*c15World, error) {
 		w.gotJSON = append(w.gotJSON, string(b))
 		return w.cur
 	})
+	sinkP, _ := xconsumer.NewProfiles(func(_ context.Context, pd pprofile.Profiles) error {
+		b, _ := (&pprofile.JSONMarshaler{}).MarshalProfiles(pd)
+		w.gotJSON = append(w.gotJSON, string(b))
+		return w.cur
+	})
+	rp, err := rf.(xreceiver.Factory).CreateProfiles(ctx, set, rcfg, sinkP)
+	if err != nil {
+		return nil, err
+	}
 	rl, err := rf.CreateLogs(ctx, set, rcfg, sinkL)
 	if err != nil {
 		return nil, err
@@ -229,7 +242,7 @@ func c15StartReceiver(auth string) (*c15World, error) {
 	if err != nil {
 		return nil, err
 	}
-	for _, r := range []component.Component{rl, rt, rm} {
+	for _, r := range []component.Component{rl, rt, rm, rp} {
 		if err := r.Start(ctx, host); err != nil {
 			return nil, err
 		}
@@ -245,6 +258,7 @@ type c15Sender struct {
 	logs consumer.Logs
 	trcs consumer.Traces
 	mets consumer.Metrics
+	prof xconsumer.Profiles
 }
 
 func c15Senders(w *c15World, comps []configcompression.Type, skipped *[]string) []c15Sender {
@@ -264,11 +278,12 @@ func c15Senders(w *c15World, comps []configcompression.Type, skipped *[]string) 
 			l, e1 := gf.CreateLogs(ctx, set, gc)
 			tr, e2 := gf.CreateTraces(ctx, set, gc)
 			m, e3 := gf.CreateMetrics(ctx, set, gc)
-			if e1 != nil || e2 != nil || e3 != nil {
+			pr, e4 := gf.(xexporter.Factory).CreateProfiles(ctx, set, gc)
+			if e1 != nil || e2 != nil || e3 != nil || e4 != nil {
 				*skipped = append(*skipped, "grpc/"+string(comp)+": create failed")
 				return
 			}
-			for _, c := range []component.Component{l, tr, m} {
+			for _, c := range []component.Component{l, tr, m, pr} {
 				if err := c.Start(ctx, host); err != nil {
 					*skipped = append(*skipped, fmt.Sprintf("grpc/%s: %v", comp, err))
 					return
@@ -276,7 +291,7 @@ func c15Senders(w *c15World, comps []configcompression.Type, skipped *[]string) 
 				c := c
 				w.shutdown = append(w.shutdown, func() { _ = c.Shutdown(ctx) })
 			}
-			out = append(out, c15Sender{"grpc/" + string(comp), false, l, tr, m})
+			out = append(out, c15Sender{"grpc/" + string(comp), false, l, tr, m, pr})
 		}()
 		for _, enc := range []otlphttpexporter.EncodingType{otlphttpexporter.EncodingProto, otlphttpexporter.EncodingJSON} {
 			func() {
@@ -291,11 +306,12 @@ func c15Senders(w *c15World, comps []configcompression.Type, skipped *[]string) 
 				l, e1 := hf.CreateLogs(ctx, set, hc)
 				tr, e2 := hf.CreateTraces(ctx, set, hc)
 				m, e3 := hf.CreateMetrics(ctx, set, hc)
-				if e1 != nil || e2 != nil || e3 != nil {
+				pr, e4 := hf.(xexporter.Factory).CreateProfiles(ctx, set, hc)
+				if e1 != nil || e2 != nil || e3 != nil || e4 != nil {
 					*skipped = append(*skipped, "http-"+string(enc)+"/"+string(comp)+": create failed")
 					return
 				}
-				for _, c := range []component.Component{l, tr, m} {
+				for _, c := range []component.Component{l, tr, m, pr} {
 					if err := c.Start(ctx, host); err != nil {
 						*skipped = append(*skipped, fmt.Sprintf("http-%s/%s: %v", enc, comp, err))
 						return
@@ -303,7 +319,7 @@ func c15Senders(w *c15World, comps []configcompression.Type, skipped *[]string) 
 					c := c
 					w.shutdown = append(w.shutdown, func() { _ = c.Shutdown(ctx) })
 				}
-				out = append(out, c15Sender{"http-" + string(enc) + "/" + string(comp), true, l, tr, m})
+				out = append(out, c15Sender{"http-" + string(enc) + "/" + string(comp), true, l, tr, m, pr})
 			}()
 		}
 	}
@@ -343,6 +359,23 @@ func c15Send(s c15Sender, signal string, k int) (string, error) {
 		}
 		b, _ := (&ptrace.JSONMarshaler{}).MarshalTraces(td)
 		return string(b), s.trcs.ConsumeTraces(ctx, td)
+	case "profiles":
+		pd := pprofile.NewProfiles()
+		for r := 0; r <= k%2; r++ {
+			rp := pd.ResourceProfiles().AppendEmpty()
+			c15Attrs(rp.Resource().Attributes(), k)
+			rp.SetSchemaUrl("rs")
+			pf := rp.ScopeProfiles().AppendEmpty().Profiles().AppendEmpty()
+			pf.SetProfileID(pprofile.ProfileID([16]byte{9, 8, 7}))
+			pf.SetOriginalPayloadFormat("fmt")
+			pf.OriginalPayload().Append(1, 2, 255)
+			sm := pf.Sample().AppendEmpty()
+			sm.SetLocationsStartIndex(1)
+			sm.Value().Append(3, -4)
+			pf.StringTable().Append("", "a")
+		}
+		b, _ := (&pprofile.JSONMarshaler{}).MarshalProfiles(pd)
+		return string(b), s.prof.ConsumeProfiles(ctx, pd)
 	default:
 		md := pmetric.NewMetrics()
 		for r := 0; r <= k%2; r++ {
@@ -376,6 +409,8 @@ func c15SendEmpty(s c15Sender, signal string) error {
 		return s.logs.ConsumeLogs(ctx, plog.NewLogs())
 	case "traces":
 		return s.trcs.ConsumeTraces(ctx, ptrace.NewTraces())
+	case "profiles":
+		return s.prof.ConsumeProfiles(ctx, pprofile.NewProfiles())
 	}
 	return s.mets.ConsumeMetrics(ctx, pmetric.NewMetrics())
 }
@@ -459,6 +494,9 @@ func c15RunCase(w *c15World, senders []c15Sender, outcomes []c15Outcome, c c15Ca
 func c15Raw(w *c15World, c c15Case) (string, string) {
 	w.cur, w.gotJSON = nil, nil
 	url := "http://" + w.haddr + "/v1/" + c.Signal
+	if c.Signal == "profiles" {
+		url = "http://" + w.haddr + "/v1development/profiles"
+	}
 	ld := plog.NewLogs()
 	ld.ResourceLogs().AppendEmpty().ScopeLogs().AppendEmpty().LogRecords().AppendEmpty().Body().SetStr("x")
 	good, _ := (&plog.ProtoMarshaler{}).MarshalLogs(ld)
@@ -575,7 +613,7 @@ func TestVerif(t *testing.T) {
 			}
 		}
 		for _, s := range senders {
-			for _, sig := range []string{"logs", "traces", "metrics"} {
+			for _, sig := range []string{"logs", "traces", "metrics", "profiles"} {
 				for _, o := range outcomes {
 					if auth != "off" && o.Name != "nil" && o.Name != "plain-error" {
 						continue
@@ -591,7 +629,7 @@ func TestVerif(t *testing.T) {
 			}
 		}
 		if auth == "off" {
-			for _, sig := range []string{"logs", "traces", "metrics"} {
+			for _, sig := range []string{"logs", "traces", "metrics", "profiles"} {
 				for _, raw := range []string{"garbage-protobuf", "truncated-protobuf", "garbage-json", "wrong-content-type", "no-content-type", "method-get", "method-put", "unknown-content-encoding", "corrupt-gzip", "empty-request-protobuf", "empty-request-json"} {
 					run(c15Case{Auth: auth, Signal: sig, Raw: raw})
 				}
